@@ -137,7 +137,15 @@ def equiv_case(rng) -> dict | None:
             d[nm] = c05.json_value(v[nm])
         if nest:
             d["sub"] = {nm: c05.json_value(v[nm]) for nm in nest}
-        return _json.dumps(d, indent=1)
+        # other spellings of the same JSON document: everything non-ASCII escaped / kept, compact or indented, and the
+        # characters `$`, `#` and `/` written as \uXXXX escapes (legal JSON; json.loads returns the same value)
+        style = rng.random()
+        if style < 0.7:
+            return _json.dumps(d, indent=1)
+        if style < 0.8:
+            return _json.dumps(d, ensure_ascii=False, separators=(",", ":"))
+        t = _json.dumps(d, indent=rng.choice([None, 2, 4]))
+        return t.replace("$", "\\u0024") if style < 0.93 else t.replace("#", "\\u0023").replace("/", "\\/")
     mix = rng.choice(["nn_jj", "nj_jn"])
     # where the included file lives and how the directive spells it: same folder, sub folder, by absolute path, or a name that
     # contains a backslash (a literal character of a POSIX file name, not a separator: no such file exists, nothing is merged)
@@ -238,4 +246,20 @@ def _w45() -> bool:
 
 
 KNOWN_CLASSES = {"overflow_number_string": c01._d2_class, "unresolved_padded_reference": _d45}
-WITNESSES: dict = {"D45": _w45}
+def _d50(v: dict) -> bool:
+    """an include entry inside a nested dict of a JSON source"""
+    return False          # the generators place include entries at the top level only; the witness below is replayed on every run
+
+
+def _w50() -> bool:
+    from dictIO import DictReader
+    with impl.scratch() as td:
+        (td / "c").write_text("z 9;\n")
+        (td / "n").write_text("k 5;\nsub\n{\n    #include 'c'\n    x 7;\n}\n")
+        (td / "j.json").write_text('{"k": 5, "sub": {"#include": "c", "x": 7}}')
+        a = impl.plain(DictReader.read(td / "n")); b = impl.plain(DictReader.read(td / "j.json"))
+        return ("z" in a) != ("z" in b)
+
+
+KNOWN_CLASSES["nested_json_include"] = _d50
+WITNESSES: dict = {"D45": _w45, "D50": _w50}
